@@ -97,6 +97,17 @@ def generate(inv, T):
                                   'a %s b;' % m['op'], 'phqv::put(out, a);'])
                 impl = add(H.Wrapper(base, T, sa + sb, T, sa, body))
                 obs.append({'kind': 'compound', 'id': decl, 'impl': impl, 'op': m['op'][0], 'sa': sa, 'sb': sb, 'q': q, 'qb': qb})
+                # aliased operands: the right-hand side is (part of) the object being assigned to
+                if qb is None and sb == 1:
+                    ab = '\n'.join([load_arg('a', q, T, 0, sa),
+                                    'a %s *reinterpret_cast<const %s*>(static_cast<const void*>(&a));' % (m['op'], CT[T]), 'phqv::put(out, a);'])
+                    ai = add(H.Wrapper(base + '_alias', T, sa, T, sa, ab))
+                    obs.append({'kind': 'alias', 'id': decl + ' with the number bound to the first stored component of the same object', 'impl': ai,
+                                'op': m['op'][0], 'sa': sa, 'how': 'first'})
+                elif qb == q:
+                    ab = '\n'.join([load_arg('a', q, T, 0, sa), 'a %s a;' % m['op'], 'phqv::put(out, a);'])
+                    ai = add(H.Wrapper(base + '_self', T, sa, T, sa, ab))
+                    obs.append({'kind': 'alias', 'id': decl + ' applied to the object itself (a %s a)' % m['op'], 'impl': ai, 'op': m['op'][0], 'sa': sa, 'how': 'self'})
     # ---- free operators number * quantity -------------------------------------------------------
     k = 0
     for f in inv.free_ops:
@@ -205,6 +216,15 @@ def one(ctx, T, d):
                 return
             ctx.bit_equal(o, r.out, spec, w, key=d['id'], replay=ctx.native_term_replay(w, spec))
             check_ub(ctx, d, r)
+        elif d['kind'] == 'alias':
+            o = ctx.ob(d['id'], 'compound-assignment-aliased', 'BIT',
+                       '%s: every component is combined with the ORIGINAL value of the aliased operand' % d['id'])
+            if r is None or r.error or any(t is None for t in r.out):
+                o.reason = ctx.why_missing(d['impl'])
+                return
+            a = [tm.arg(T, 'x%d' % i) for i in range(d['sa'])]
+            spec = [mk(FOP[d['op']], T, a[i], a[0] if d['how'] == 'first' else a[i]) for i in range(d['sa'])]
+            ctx.bit_equal(o, r.out, spec, w, key=d['id'], replay=ctx.native_term_replay(w, spec))
         elif d['kind'] == 'twin':
             o = ctx.ob(d['id'], 'constructor-twin', 'BIT', '%s: constructor and operator return identical bits' % d['id'])
             rt = ctx.result(d['twin'])
